@@ -910,6 +910,8 @@ func (s *Server) RemoteHello(
 	s.lastPushData.mTrackedTimeSum = tTrackedSum
 	s.lastPush = time.Now()
 	s.clientId.Store(&req.Id)
+	// the exported clock supersedes the mutations collected so far
+	s.tracer.dataQueue = nil
 
 	s.log("RemoteHello: t%v q%d", tTrackedSum, export.QueueTick)
 	s.Mach.Add1(ssS.Handshaking, nil)
